@@ -165,3 +165,189 @@ spec("C01", plan=plan_c01,
           "result, consumed length, and the verdict of every rule invocation.  Non-trivial: the formalism backtracked over consumed "
           "input (a composite failed after a child consumed); distinct = (grammar, input, script).",
      assumptions=COMMON_ASSUME + ["reference model: model/peg_model.hpp (Ford's PEG semantics), desugaring table vf/gen.py"])
+
+# ---------------------------------------------------------------------------- C09
+CONV_OPS = ["if_must", "if_must_else", "if_then_else", "list", "list_must", "list_tail", "minus", "must", "opt_must", "pad",
+            "pad_opt", "partial", "star_partial", "rep", "rep_max", "rep_min", "rep_min_max", "rep_opt", "star_must", "strict",
+            "star_strict", "until", "rematch", "separated_seq"]
+C09_INCLUDES = ("<tao/pegtl/contrib/if_then.hpp>", "<tao/pegtl/contrib/separated_seq.hpp>", "<tao/pegtl/contrib/rep_string.hpp>",
+                "<tao/pegtl/contrib/rep_one_min_max.hpp>")
+
+
+def best_mask(g, nslots):
+    """Smallest set of slots that must consume on success for the grammar to be well-formed; None if impossible."""
+    L = gen.Lowered(g)
+    masks = sorted(range(1 << nslots), key=lambda m: (bin(m).count("1"), m))
+    for m in masks:
+        if not gen.analyse(L, m):
+            return m
+    return None
+
+
+def conv_shapes(bounds=range(0, 5)):
+    N = gen.N
+    S = lambda k: N("slot", k=k)
+    sh = []
+    for a in (2, 3):
+        sh.append(N("if_must", [S(i) for i in range(a)]))
+        sh.append(N("opt_must", [S(i) for i in range(a)]))
+        sh.append(N("star_must", [S(i) for i in range(a)]))
+        sh.append(N("list", [S(i) for i in range(a)]))
+        sh.append(N("list_must", [S(i) for i in range(a)]))
+        sh.append(N("list_tail", [S(i) for i in range(a)]))
+        sh.append(N("pad", [S(i) for i in range(a)]))
+        sh.append(N("rematch", [S(i) for i in range(a)]))
+    sh.append(N("if_must_else", [S(0), S(1), S(2)]))
+    sh.append(N("if_then_else", [S(0), S(1), S(2)]))
+    sh.append(N("minus", [S(0), S(1)]))
+    sh.append(N("pad_opt", [S(0), S(1)]))
+    for a in (1, 2, 3):
+        sh.append(N("must", [S(i) for i in range(a)]))
+        sh.append(N("partial", [S(i) for i in range(a)]))
+        sh.append(N("star_partial", [S(i) for i in range(a)]))
+        sh.append(N("strict", [S(i) for i in range(a)]))
+        sh.append(N("star_strict", [S(i) for i in range(a)]))
+        sh.append(N("until", [S(i) for i in range(a)]))
+    for n in bounds:
+        for a in (1, 2):
+            sh.append(N("rep", [S(i) for i in range(a)], n=n))
+            sh.append(N("rep_max", [S(i) for i in range(a)], n=n))
+            sh.append(N("rep_min", [S(i) for i in range(a)], n=n))
+            if not (n == 0 and a == 1):  # rep_opt< 0, R >: ambiguous partial specialisation in PEGTL, does not compile
+                sh.append(N("rep_opt", [S(i) for i in range(a)], n=n))
+        for mx in bounds:
+            if mx >= n:
+                sh.append(N("rep_min_max", [S(0)], min=n, max=mx))
+                if (n + mx) % 2 == 0:
+                    sh.append(N("rep_min_max", [S(0), S(1)], min=n, max=mx))
+    sh.append(N("separated_seq", [S(0), S(1), S(2)]))
+    sh.append(N("separated_seq", [S(0), S(1), S(2), S(3)]))
+    # if_then chains: kids = [C1, T1.., C2, T2.., E..]
+    sh.append(N("if_then", [S(0), S(1)], thens=[1], **{"else": -1}))
+    sh.append(N("if_then", [S(0), S(1), S(2)], thens=[1], **{"else": 1}))
+    sh.append(N("if_then", [S(0), S(1), S(2), S(3)], thens=[1, 1], **{"else": -1}))
+    sh.append(N("if_then", [S(0), S(1), S(2), S(3), S(4)], thens=[1, 1], **{"else": 1}))
+    sh.append(N("if_then", [S(0), S(1), S(2), S(3), S(4), S(5)], thens=[1, 1, 1], **{"else": -1}))
+    return sh
+
+
+def in_contexts(shapes, contexts=("bare", "seq", "sor")):
+    N = gen.N
+    S = lambda k: N("slot", k=k)
+    out = []
+    skipped = 0
+    for sh in shapes:
+        for c in contexts:
+            if c == "bare":
+                top = sh
+            elif c == "seq":
+                top = N("seq", [S(6), sh, S(7)])
+            elif c == "sor":
+                top = N("sor", [sh, S(7)])
+            elif c == "star":
+                top = N("star", [sh])
+            g = gen.Grammar([top])
+            m = best_mask(g, 6)
+            if m is None:
+                skipped += 1
+                continue
+            g.nonempty_slots = m
+            out.append(g)
+    return out
+
+
+def byte_level_grammars():
+    N = gen.N
+    G = gen.Grammar
+    out = []
+
+    def add(rule, alphabet, maxlen=(6, 7), extra=None):
+        for top in (rule, N("sor", [rule, N("any")]), N("seq", [N("any"), rule, N("eof")])):
+            out.append(G([top], alphabet=alphabet, maxlen=maxlen, extra=extra))
+    add(N("eolf"), "\n\rax")
+    add(N("keyword", s="ab"), "ab_1 ")
+    add(N("keyword", s="if"), "if0-_")
+    add(N("identifier"), "a_1-Z")
+    add(N("shebang"), "#!\n\rx", maxlen=(6, 7))
+    add(N("string", s="aba"), "abx")
+    add(N("string", s="a"), "ab")
+    add(N("istring", s="aB1"), "abAB1x", maxlen=(4, 5))
+    add(N("two", c="a"), "abx")
+    add(N("three", c="a"), "abx")
+    add(N("ellipsis"), ".ax")
+    add(N("ranges", s="acxz"), "abcdwxyz", maxlen=(2, 3))
+    add(N("ranges", s="ac_"), "abcd_x", maxlen=(2, 3))
+    add(N("everything"), "ab\n")
+    add(N("rep_string", n=2, s="ab"), "abx")
+    add(N("rep_string", n=0, s="ab"), "abx", maxlen=(3, 4))
+    add(N("rep_string", n=3, s="a"), "ab")
+    for mn, mx in ((0, 0), (0, 2), (1, 3), (2, 2), (2, 4), (0, 4)):
+        add(N("rep_one_min_max", min=mn, max=mx, c="a"), "ab", maxlen=(7, 8))
+    # forty_two: runs of 38..45 characters with one mutation
+    extra = []
+    for n in range(38, 46):
+        run = "a" * n
+        extra.append(run)
+        for pos in (0, 1, n // 2, n - 2, n - 1):
+            extra.append(run[:pos] + "b" + run[pos + 1:])
+            extra.append(run[:pos] + "x" + run[pos + 1:])
+    add(N("forty_two", s="ab"), "abx", maxlen=(3, 3), extra=extra)
+    add(N("forty_two", s="a"), "ab", maxlen=(3, 3), extra=["a" * n for n in range(38, 46)])
+    return out
+
+
+def plan_c09(tier, seed, workdir, case):
+    if case is not None:
+        return replay_corpus_plan("C09", workdir, case, extra_includes=C09_INCLUDES)
+    import random
+    rnd = random.Random(seed * 11 + 3)
+    shapes = in_contexts(conv_shapes())
+    if tier == "thorough":
+        # nestings: every convenience rule with another one as its first or second child
+        N = gen.N
+        base = [s for s in conv_shapes(bounds=(1, 2)) if len(s.kids) >= 2][:40]
+        nested = []
+        for a in base:
+            for b in rnd.sample(base, 6):
+                inner = gen.N.from_json(b.to_json())
+                for n in inner.walk():  # renumber inner slots 3..5
+                    if n.op == "slot":
+                        n.p["k"] = 3 + n.p["k"] % 3
+                outer = gen.N.from_json(a.to_json())
+                outer.kids[rnd.randrange(len(outer.kids))] = inner
+                nested.append(outer)
+        shapes += in_contexts(nested, contexts=("bare", "seq"))
+    for g in shapes:
+        if rnd.random() < 0.5:
+            attach_void_actions(g, rnd)
+    n = 120 if tier == "quick" else 1200
+    G = gen.Gen(seed * 1000 + 91, ops=CORE_OPS + CONV_OPS * 2, max_depth=3 if tier == "quick" else 4)
+    gs = []
+    for _ in range(n):
+        g, rej = G.grammar()
+        if rnd.random() < 0.5:
+            attach_void_actions(g, rnd)
+        gs.append(g)
+    bl = byte_level_grammars()
+    runs = []
+    for t in write_tus(workdir, "c09s", shapes, 14, 2, C09_INCLUDES):
+        runs.append(Run(t, args=["--prop", "C09", "--rc", "400" if tier == "quick" else "5000"]))
+    for t in write_tus(workdir, "c09c", gs, 10 if tier == "quick" else 25, 2, C09_INCLUDES):
+        runs.append(Run(t, args=["--prop", "C09"]))
+    for t in write_tus(workdir, "c09b", bl, 10, 2, C09_INCLUDES):
+        runs.append(Run(t, args=["--prop", "C09"]))
+    return runs
+
+
+spec("C09", plan=plan_c09,
+     rule="(a) every rule named in the property instantiated over adversarial scripted leaves (slots that consume then fail and rewind only "
+          "when rewinding is required, succeed empty, raise, or throw), all repetition bounds 0..4, bare / inside seq / inside sor (thorough: "
+          "also nested pairs), rapidcheck-generated scripts and inputs; (b) seeded random grammars mixing core and convenience rules over "
+          "real atoms, all inputs up to length 5/7; (c) byte-level rules (eolf keyword identifier shebang string istring two three ellipsis "
+          "ranges everything rep_string rep_one_min_max forty_two) on all strings over rule-specific alphabets up to length 6/7 and runs of "
+          "38..45 characters with one mutation.  Oracle: the documented expansion (transcribed from doc/Rule-Reference.md in vf/gen.py) "
+          "evaluated by the reference PEG interpreter: result, consumed prefix, blamed rule and message of the global failure, and the "
+          "verdict of every invocation of such a rule inside the run.  Non-trivial: a sub-rule failed after consuming while rewinding was "
+          "optional, or a global failure was raised, or the formalism backtracked over consumed input; distinct = (grammar, input, script).",
+     assumptions=COMMON_ASSUME + ["reference model + desugaring table (vf/gen.py expand()) transcribed from doc/Rule-Reference.md",
+                                  "if_then chains read as nested if_then_else ending in failure (header + contrib_if_then.cpp)"])
